@@ -146,8 +146,6 @@ structure PKey where
   hashv : Nat
 deriving Repr
 
-def shadowP (es : List (PKey × VOwned)) : List MEntry := es.map (fun p => shadowEntry { key := p.1.key, orig := p.1.key, hashv := p.1.hashv })
-
 def pentriesIds : List (PKey × VOwned) → List Nat
   | [] => []
   | (pk, v) :: es => pk.key :: (v.ids ++ pentriesIds es)
@@ -163,32 +161,38 @@ def cleanPacket (ut : Option UT) : List (PKey × VOwned) → St → St
 /-- cif_packet_free -/
 def packetFreeV (pkt : Nat) (ut : Option UT) (es : List (PKey × VOwned)) (s : St) : St := free pkt (cleanPacket ut es s)
 
+/-- the entries of a freshly created packet: every value is of kind UNK (it owns just the entry block) -/
+def unkEntries (es : List (PKey × Nat)) : List (PKey × VOwned) := es.map (fun p => (p.1, .scalar p.2))
+
+def shadowK (es : List (PKey × Nat)) : List MEntry := es.map (fun p => shadowEntry { key := p.1.key, orig := p.1.key, hashv := p.1.hashv })
+
 /-- the loop of cif_packet_create_norm(&temp_packet, names, avoid_aliasing = 1): per name the entry, a copy of the name,
-    HASH_ADD_KEYPTR.  Soft handler: a table-less head entry is released directly, then cif_packet_free (the new entry is
-    released first here; see `nameSetLoop`). -/
-def createNormLoop (failAt : Nat) (pkt : Nat) : List Nat → Option UT → List (PKey × VOwned) → St →
-    Option (Option UT × List (PKey × VOwned)) × St
+    HASH_ADD_KEYPTR; `done` = (key copy, entry block) so far.  Soft handler: a table-less head entry is released directly,
+    then cif_packet_free (the new entry is released first here; see `nameSetLoop`). -/
+def createNormLoop (failAt : Nat) (pkt : Nat) : List Nat → Option UT → List (PKey × Nat) → St →
+    Option (Option UT × List (PKey × Nat)) × St
   | [], ut, done, s => (some (ut, done), s)
   | h :: rest, ut, done, s =>
     match alloc failAt s with                                     -- scalar = malloc(sizeof(struct entry_s))
-    | (none, s1) => (none, packetFreeV pkt ut done s1)
+    | (none, s1) => (none, packetFreeV pkt ut (unkEntries done) s1)
     | (some ent, s1) =>
       match alloc failAt s1 with                                  -- scalar->key = cif_u_strdup(*name)
-      | (none, s2) => (none, packetFreeV pkt ut done (free ent s2))
+      | (none, s2) => (none, packetFreeV pkt ut (unkEntries done) (free ent s2))
       | (some kb, s2) =>
-        match hashAdd failAt { ut := ut, entries := shadowP done } (shadowEntry { key := kb, orig := kb, hashv := h }) s2 with
-        | (.ok m', s3) => createNormLoop failAt pkt rest m'.ut (done ++ [({ key := kb, hashv := h }, .scalar ent)]) s3
-        | (.fatal t, s3) => (none, packetFreeV pkt ut done (free ent (free kb (freeAll t s3))))
+        match hashAdd failAt { ut := ut, entries := shadowK done } (shadowEntry { key := kb, orig := kb, hashv := h }) s2 with
+        | (.ok m', s3) => createNormLoop failAt pkt rest m'.ut (done ++ [({ key := kb, hashv := h }, ent)]) s3
+        | (.fatal t, s3) => (none, packetFreeV pkt ut (unkEntries done) (free ent (free kb (freeAll t s3))))
 
-/-- the value-reading loop: `todo` = the entries not yet filled (with the stored value of their item), `done` = the
-    entries already filled; a failure releases the whole temporary packet -/
-def fillLoop (failAt : Nat) (pkt : Nat) (ut : Option UT) : List ((PKey × VOwned) × ItemVal) → List (PKey × VOwned) → St →
+/-- the value-reading loop: `todo` = the entries not yet filled (key copy, entry block) with the stored value of their
+    item, `done` = the entries already filled; a failure releases the whole temporary packet, the partially read value
+    included -/
+def fillLoop (failAt : Nat) (pkt : Nat) (ut : Option UT) : List ((PKey × Nat) × ItemVal) → List (PKey × VOwned) → St →
     Option (List (PKey × VOwned)) × St
   | [], done, s => (some done, s)
-  | ((pk, v0), iv) :: rest, done, s =>
-    match fillItem failAt v0.obj iv s with
+  | ((pk, ent), iv) :: rest, done, s =>
+    match fillItem failAt ent iv s with
     | (true, v, s') => fillLoop failAt pkt ut rest (done ++ [(pk, v)]) s'
-    | (false, v, s') => (none, packetFreeV pkt ut (done ++ (pk, v) :: rest.map (·.1)) s')
+    | (false, v, s') => (none, packetFreeV pkt ut (done ++ (pk, v) :: unkEntries (rest.map (·.1))) s')
 
 /-- what the caller's new packet owns -/
 structure PktOwned where
